@@ -388,3 +388,83 @@ loop('Environment.run', 1, 'while self._events and (not self._terminated)',
      dict(ENV_INVS,
           trace_flag='self._trace == trace', **RUN_INVS),
      modifies=None)
+
+# --------------------------------------------------------------------------- construction
+contract('Event.__init__', props=['C01'], invariants=False,
+         args={'time': 'real', 'asset_id': 'int', 'action': 'clo', 'event_type': 'real', 'message': 'str'},
+         raises={'TypeError': ('action is None', {})},
+         ensures={'fields_as_given': 'self.time == time and self.asset_id == asset_id and self.action == action and '
+                                     'self.event_type == event_type',
+                  'starts_live': 'not self.cancelled and not self.executed and self.paused_at is None',
+                  'weight_in_unit_interval': '0 <= self.random_weight and self.random_weight < 1'})
+
+contract('Environment.__init__', props=['C01', 'C07'], invariants='prove_only',
+         args={'name': 'str', 'resource_manager': 'ref:ResourceManager'},
+         ensures={'starts_at_zero': 'self._now == 0',
+                  'starts_empty': 'len(self._events) == 0 and len(self._paused_events) == 0',
+                  'not_running': 'self._terminated and not self._trace and self._event_index == 0'})
+
+# --------------------------------------------------------------------------- C15: data log and trace
+# The table simulation_data[label][sub_label] -> list.  Every series list and every per-label dictionary is
+# created by add_datapoint itself (clauses new_series_is_fresh / new_table_is_fresh), so distinct entries
+# never share an object and none of them is one of the event queues: that separation is the precondition
+# 'series_apart' (hand lemma from the two freshness clauses; listed as assumed in evidence).
+contract('Environment.add_datapoint', props=['C15'],
+         args={'list_label': 'any', 'sub_label': 'any', 'datapoint': 'any'},
+         requires={
+             'table_exists': 'self.simulation_data is not None and alive(self.simulation_data)',
+             'table_wellformed':
+                 'all(self.simulation_data[l] is not None and alive(self.simulation_data[l]) and '
+                 '    self.simulation_data[l] is not self.simulation_data and '
+                 '    all(self.simulation_data[l][s] is not None and alive(self.simulation_data[l][s]) '
+                 '        for s in self.simulation_data[l]) for l in self.simulation_data)',
+             'series_apart':
+                 'all(implies(l in self.simulation_data and s in self.simulation_data[l], '
+                 '            self.simulation_data[l][s] is not self._events and '
+                 '            self.simulation_data[l][s] is not self._paused_events and '
+                 '            all(implies(l2 in self.simulation_data and s2 in self.simulation_data[l2] and '
+                 '                        not (l == l2 and s == s2), '
+                 '                        self.simulation_data[l][s] is not self.simulation_data[l2][s2]) '
+                 '                for l2 in refs() for s2 in refs())) for l in refs() for s in refs()) and '
+                 'all(implies(l in self.simulation_data and l2 in self.simulation_data and l != l2, '
+                 '            self.simulation_data[l] is not self.simulation_data[l2]) for l in refs() for l2 in refs())',
+         },
+         ensures={
+             'appended_exactly_one':
+                 'list_label in self.simulation_data and sub_label in self.simulation_data[list_label] and '
+                 'len(self.simulation_data[list_label][sub_label]) == '
+                 '    ite(old(list_label in self.simulation_data and sub_label in self.simulation_data[list_label]), '
+                 '        old(len(self.simulation_data[list_label][sub_label])), 0) + 1 and '
+                 'self.simulation_data[list_label][sub_label][-1] == datapoint',
+             'earlier_records_kept':
+                 'implies(old(list_label in self.simulation_data and sub_label in self.simulation_data[list_label]), '
+                 '  all(self.simulation_data[list_label][sub_label][i] == old(self.simulation_data[list_label][sub_label][i]) '
+                 '      for i in range(old(len(self.simulation_data[list_label][sub_label])))))',
+             'new_series_is_fresh':
+                 'implies(not old(list_label in self.simulation_data and sub_label in self.simulation_data[list_label]), '
+                 '        fresh(self.simulation_data[list_label][sub_label]))',
+             'new_table_is_fresh':
+                 'implies(not old(list_label in self.simulation_data), fresh(self.simulation_data[list_label]))',
+             'other_series_untouched':
+                 'all(implies(old(l in self.simulation_data and s in self.simulation_data[l]) and '
+                 '            not (l == list_label and s == sub_label), '
+                 '            l in self.simulation_data and s in self.simulation_data[l] and '
+                 '            self.simulation_data[l][s] is old(self.simulation_data[l][s]) and '
+                 '            seq(self.simulation_data[l][s]) == old(seq(self.simulation_data[l][s]))) '
+                 '    for l in refs() for s in refs())',
+             'no_other_series_created':
+                 'all(implies(l in self.simulation_data and s in self.simulation_data[l] and '
+                 '            not (l == list_label and s == sub_label), '
+                 '            old(l in self.simulation_data and s in self.simulation_data[l])) '
+                 '    for l in refs() for s in refs())',
+         })
+
+contract('Environment._trace_event', props=['C15'], args={'event': 'ref:Event!'},
+         requires={'event_exists': 'event is not None', 'trace_exists': 'self._event_trace is not None'},
+         ensures={'one_entry_at_next_index':
+                      'old(self._event_index) in self._event_trace and self._event_index == old(self._event_index) + 1',
+                  'earlier_entries_kept':
+                      'all(implies(k in old(dmap(self._event_trace)) and k != box(old(self._event_index)), '
+                      '            k in self._event_trace and self._event_trace[k] == old(self._event_trace[k])) '
+                      '    for k in refs())'},
+         modifies=['self._event_index', 'self._event_trace[]'])
